@@ -67,6 +67,9 @@ func runC02(c *Ctx) {
 				for s := 0; s < n; s++ {
 					c02Sequence(c, kind, auto, u, 1+c.Rng.Intn(maxLen))
 				}
+				for s := 0; s < n/2+1; s++ {
+					c02FillAndEmpty(c, kind, auto, u)
+				}
 			}
 		}
 	}
@@ -192,4 +195,92 @@ func errKind(obs string) string {
 		return strings.TrimPrefix(obs, "err ")
 	}
 	return ""
+}
+
+
+// c02FillAndEmpty: "a bucket whose objects have all been deleted can be deleted" — fill a bucket
+// with a random subset of the keys, empty it through a random partition into single deletes and
+// multi-object deletes (in shuffled order), then head/list/delete the bucket and re-create it.
+func c02FillAndEmpty(c *Ctx, kind string, auto bool, u c02Universe) {
+	opts := []gofakes3.Option{}
+	if auto {
+		opts = append(opts, gofakes3.WithAutoBucket(true))
+	}
+	inst, err := impl.New(kind, c.Tmp, opts...)
+	if err != nil {
+		c.mismatch(Mismatch{Kind: "model", Backend: kind, Finger: "setup", Impl: err.Error()})
+		return
+	}
+	defer inst.Close()
+	r := newRunner(c, inst, auto, false, false)
+	bucket := "bk1"
+	if inst.IsSingle() {
+		bucket = impl.SingleBucketName
+		r.tell("mkbucket " + hx(bucket))
+	} else {
+		l, o := r.MkBucket(bucket)
+		r.judgeProj(l, o, "fill:createBucket", ident, specProjC02)
+	}
+	var keys []string
+	for _, k := range u.keys {
+		if c.Rng.Intn(3) != 0 {
+			keys = append(keys, k)
+		}
+	}
+	if inst.IsFs() && fsConflict(keys) {
+		return
+	}
+	step := func(line, obs, finger string) bool {
+		before := c.NMism
+		r.judgeProj(line, obs, "fill:"+finger, ident, specProjC02)
+		return c.NMism == before
+	}
+	for _, k := range keys {
+		l, o := r.Put(bucket, k, nil, []byte("v"+k))
+		if !step(l, o, "put") {
+			return
+		}
+	}
+	perm := c.Rng.Perm(len(keys))
+	for i := 0; i < len(perm); {
+		n := 1 + c.Rng.Intn(3)
+		if i+n > len(perm) {
+			n = len(perm) - i
+		}
+		if n == 1 && c.Rng.Intn(2) == 0 {
+			l, o := r.Del(bucket, keys[perm[i]])
+			if !step(l, o, "delete") {
+				return
+			}
+		} else {
+			var objs []ObjID
+			for _, j := range perm[i : i+n] {
+				objs = append(objs, ObjID{Key: keys[j]})
+			}
+			l, o := r.DelMulti(bucket, objs)
+			if !step(l, o, "deleteMulti") {
+				return
+			}
+		}
+		i += n
+	}
+	// nothing may be left: listing with and without delimiter, then the bucket goes
+	for _, d := range []string{"", "/"} {
+		line, lo := r.List(ListReq{Bucket: bucket, HasDelim: d != "", Delim: d, ClampedMaxKeys: 1000})
+		before := c.NMism
+		r.judgeProj(line, lo.Obs, "fill:list-after-empty", ident, listProj)
+		if c.NMism > before {
+			return
+		}
+	}
+	if !inst.IsSingle() {
+		l, o := r.RmBucket(bucket, false)
+		if !step(l, o, "deleteBucket-after-empty") {
+			return
+		}
+		l, o = r.MkBucket(bucket)
+		step(l, o, "recreate")
+	}
+	c.nontrivial(fmt.Sprintf("fill|%s|%v|%v", kind, keys, perm))
+	c.hist("fill-and-empty")
 }
